@@ -251,5 +251,26 @@ def run(F, tier, res):
     else:
         res.violate('ZERO', 'fn=%s;row' % Z, 'the two panels of an unchanged line are not followed by exactly one newline per row', where=F.bodies[Z]['mir']['span']['at'])
     res.rule('C07.ZERO', nz, 2, 'unchanged lines: both sides in order Left, Right; one newline per row', discharged=okz)
+    # ---------- MAX-END: the gutter is as wide as the largest line number of the hunk, i.e. the largest start + length over the coordinate
+    # pairs. A max() taken directly over the (start, length) tuples compares them lexicographically - it picks the pair that starts last,
+    # not the one that ends last - and the gutter comes out a digit too narrow: the panel text is then laid out for a row that is too wide
+    nmx = okmx = 0
+    for q in sorted(F.fn_bodies):
+        mir = F.bodies[q]['mir']
+        if not any(mir['locals'][i].replace(' ', '') in ('&[(usize,usize)]', '&std::vec::Vec<(usize,usize)>') for i in range(1, mir['arg_count'] + 1)):
+            continue
+        for i, c in F.calls(q):
+            if not callee_of(c).endswith(('Iterator::max', 'Iterator::min', 'Iterator::max_by_key', 'Iterator::min_by_key')):
+                continue
+            full = callee_full(c)
+            head = full.split(' as std::iter::Iterator>')[0]
+            nmx += 1
+            over_pairs = '(usize, usize)' in head and 'Map<' not in head and callee_of(c).endswith(('::max', '::min'))
+            if over_pairs:
+                res.violate('MAX-END', 'fn=%s' % q, 'the extreme of the hunk coordinates is taken over the (start, length) pairs themselves (lexicographic order) rather than over '
+                            'start + length: the gutter width is computed from the wrong pair', where=F.span_of_call(c))
+            else:
+                okmx += 1
+    res.rule('C07.MAX-END', nmx, 1, 'max()/min() calls in functions taking the coordinate list: none compares (start, length) tuples as such', discharged=okmx)
     res.distinct.update(r['rule'] for r in res.rules)
     return res
